@@ -18,7 +18,14 @@ func init() { engines["cachehist"] = engineCacheHist }
 // c05Mutate changes exactly one option field.
 func c05Mutate(r *rand.Rand, o database.SearchOptions, n int, words []string) (database.SearchOptions, string) {
 	p := o
-	switch r.Intn(11) {
+	switch r.Intn(12) {
+	case 11:
+		// option values that are different requests but look alike when rendered without quoting: two boost keys against one
+		// key that spells out "key:value key" (and the like with commas, brackets, quotes)
+		a, b := words[0], words[len(words)/2]
+		forms := []map[string]float64{{a: 5, b: 2}, {a + ":5 " + b: 2}, {a: 5}, {a + ":5": 1.5, b: 2}, {a + "\":5,\"" + b: 2}, {"map[" + a: 5, b + "]": 2}}
+		p.ContextBoosts = forms[r.Intn(len(forms))]
+		return p, "ContextBoosts"
 	case 0:
 		p.Limit = []int{1, 2, 3, 5, n + 1, 0, -1, 10}[r.Intn(8)]
 		return p, "Limit"
@@ -51,7 +58,9 @@ func c05Mutate(r *rand.Rand, o database.SearchOptions, n int, words []string) (d
 		p.AllPlatforms = !o.AllPlatforms
 		return p, "AllPlatforms"
 	case 9:
-		p.Platforms = append([]string(nil), [][]string{nil, {"windows"}, {"macos"}, {"linux"}, {"windows", "macos"}}[r.Intn(5)]...)
+		p.Platforms = append([]string(nil), [][]string{nil, {"windows"}, {"macos"}, {"linux"}, {"windows", "macos"},
+			// one name that spells out two (what `--platform "windows macos"` hands over), and other look-alikes of the list above
+			{"windows macos"}, {"windows,macos"}, {"windows", "macos", ""}, {"[windows", "macos]"}, {"windows\",\"macos"}}[r.Intn(10)]...)
 		return p, "Platforms"
 	default:
 		p.NoCrossPlatform = !o.NoCrossPlatform
@@ -92,8 +101,45 @@ type c05Past struct {
 	step   int
 }
 
+// c05NLPSweep: every word of the query-analysis vocabulary (also with an ending glued on) in front of every phrase it names,
+// asked through the cache in lower case and then in upper case (spellings that may share an entry): each answer must be
+// the uncached answer for that spelling.
+func c05NLPSweep(ctx *Ctx, r *rand.Rand) {
+	d := ctx.Dict()
+	cmds := vlib.GenCommands(r, vlib.DBSpec{N: 30, TieHeavy: true, Pipelines: true})
+	for i, t := range []string{"less file.txt", "cat file.txt", "vim file.txt", "tail -f app.log", "head -n 5 file", "nano notes.txt", "open report.pdf", "view image.png"} {
+		cmds = append(cmds, vlib.Cmd{Command: t, Description: []string{"view file contents page by page", "print file contents", "edit a file", "follow a log file", "show first lines of a file", "edit text file", "open a document", "display an image"}[i], Keywords: []string{"file", "view", "show", "edit", "read"}})
+	}
+	db := vlib.MustLoad(cmds)
+	cdb := database.NewCachedDatabase(db)
+	o := database.SearchOptions{Limit: 8, UseNLP: true, AllPlatforms: true}
+	budget, n := ctx.Pick(25000, 1000000), 0
+	d.NLPCombos(ctx.Shard, ctx.NShards, "file", func(q string) {
+		n++
+		if n > budget {
+			return
+		}
+		for _, sp := range []string{q, strings.ToUpper(q)} {
+			cs := map[string]interface{}{"db": "nlp-sweep", "n": len(cmds), "entry": "SearchWithOptionsAndCache", "query": sp, "opts": vlib.OptsJ(o), "asked_before_in_another_spelling": sp != q}
+			ctx.R.Begin(cs)
+			ctx.R.Eval(1)
+			ctx.R.Path("analysis-vocabulary-sweep", 1)
+			ctx.R.Guard("C05", "SearchWithOptionsAndCache", cs, func() {
+				got := vlib.Canon(db.Commands, cdb.SearchWithOptionsAndCache(sp, o))
+				refs, stable := vlib.StableRef(3, func() vlib.Ranked { return vlib.Canon(db.Commands, db.SearchUniversal(sp, o)) })
+				if v, why := vlib.CompareToRef(refs, stable, got, o.Limit); v == "violated" {
+					ctx.R.Violate(vlib.Violation{Property: "C05", Clause: "cached-differs-from-fresh", Path: "SearchWithOptionsAndCache/case-variant",
+						Detail:  fmt.Sprintf("the answer for %s through the cache (after the same words were asked in another spelling of letter case) differs from an uncached search: %s", vlib.Q(sp), why),
+						Witness: map[string]interface{}{"case": cs, "got": got, "fresh": refs[0]}})
+				}
+			})
+		}
+	})
+}
+
 func engineCacheHist(ctx *Ctx) {
 	r := vlib.NewRand(ctx.Seed, ctx.Shard, "cachehist")
+	c05NLPSweep(ctx, r)
 	nHist := ctx.N(960, 38000)
 	for h := 0; h < nHist; h++ {
 		sp := vlib.DBSpec{N: []int{8, 20, 45, 90}[h%4], TieHeavy: h%3 == 0, Platforms: 2, Pipelines: true, PseudoCmd: h%2 == 0}
@@ -123,6 +169,15 @@ func engineCacheHist(ctx *Ctx) {
 		pool := []string{}
 		for i := 0; i < 4+r.Intn(4); i++ {
 			pool = append(pool, vlib.GenQuery(r, words, 1+r.Intn(4), []int{0, 0, 1, 2}[r.Intn(4)]))
+		}
+		if d := ctx.Dict(); ctx.G(h)%3 == 0 && len(d.NLPWords) > 0 && len(d.NLPPhrases) > 0 {
+			// requests worded with the vocabulary of the query analysis (action / target / clue words, also as part of a longer
+			// word, and the phrases it looks for); the history asks for them in several spellings of letter case
+			for k := 0; k < 2; k++ {
+				w := d.NLPWords[r.Intn(len(d.NLPWords))] + []string{"", "ing", "s", "ed"}[r.Intn(4)]
+				pool = append(pool, w+" "+words[r.Intn(len(words))]+" "+d.NLPPhrases[r.Intn(len(d.NLPPhrases))])
+			}
+			ctx.R.Path("analysis-vocabulary-queries", 2)
 		}
 		if ctx.G(h)%3 == 2 {
 			// requests that are equal after a Unicode lower-casing but not for the engine: U+212A KELVIN SIGN lower-cases to the
@@ -169,6 +224,42 @@ func engineCacheHist(ctx *Ctx) {
 		cur.Platforms, cur.NoCrossPlatform = nil, false
 		if cur.Limit <= 0 {
 			cur.Limit = 5
+		}
+		if ctx.G(h)%4 == 3 && dbName != "shipped" {
+			// look-alike requests one after the other on a fresh wrapper: lists and maps that differ, but read the same once
+			// written down without quotes or separators ([windows macos] is two names or one)
+			a, b := words[0], words[len(words)/2]
+			q := a + " " + b
+			base := database.SearchOptions{Limit: len(db.Commands) + 1, UseFuzzy: true}
+			var seq []database.SearchOptions
+			for _, pl := range [][]string{{"windows", "macos"}, {"windows macos"}, {"windows,macos"}, {"windows", "macos", ""}, {"linux", "macos"}, {"linux macos"}} {
+				o := base
+				o.Platforms = pl
+				seq = append(seq, o)
+			}
+			for _, bm := range []map[string]float64{{a: 5, b: 2}, {a + ":5 " + b: 2}, {a: 5}, {a + ":5": 1.5, b: 2}, {"map[" + a: 5, b + "]": 2}} {
+				o := base
+				o.AllPlatforms = true
+				o.ContextBoosts = bm
+				seq = append(seq, o)
+			}
+			lcdb := database.NewCachedDatabase(db)
+			for _, k := range r.Perm(len(seq)) {
+				o := seq[k]
+				cs := map[string]interface{}{"db": dbName, "n": len(db.Commands), "entry": "SearchWithOptionsAndCache", "query": q, "opts": vlib.OptsJ(o), "class": "look-alike requests in sequence"}
+				ctx.R.Begin(cs)
+				ctx.R.Eval(1)
+				ctx.R.Path("look-alike-request-steps", 1)
+				ctx.R.Guard("C05", "SearchWithOptionsAndCache", cs, func() {
+					got := vlib.Canon(db.Commands, lcdb.SearchWithOptionsAndCache(q, o))
+					refs, stable := vlib.StableRef(3, func() vlib.Ranked { return vlib.Canon(db.Commands, db.SearchUniversal(q, o)) })
+					if v, why := vlib.CompareToRef(refs, stable, got, vlib.LimitInForce(o.Limit)); v == "violated" {
+						ctx.R.Violate(vlib.Violation{Property: "C05", Clause: "cached-differs-from-fresh", Path: "SearchWithOptionsAndCache/look-alike-requests",
+							Detail:  "answer differs from an uncached search at this moment (requests that differ in their platform list / boost map were asked before): " + why,
+							Witness: map[string]interface{}{"case": cs, "got": got, "fresh": refs[0]}})
+					}
+				})
+			}
 		}
 		steps := 30 + r.Intn(ctx.Pick(60, 170))
 		if dbName == "shipped" {
